@@ -5,22 +5,26 @@ seededModels     : every function under pyxel/models that has a `seed` parameter
                    draws from the process-wide numpy generator is lexically inside
                    `with set_random_seed(seed)`.
 globalSeedCalls  : every `np.random.seed` / `np.random.set_state` call outside pyxel/util/randomize.py.
-modesPassSeed    : for each running mode, whether the call that reaches `run_pipeline` / the fitting problem
-                   passes `pipeline_seed=<the mode's seed>`.
-seedContextShape : the shape of `set_random_seed` (lock, save, try, seed, yield, finally, restore, else, yield).
+modesPassSeed    : per source file, whether EVERY call site of a function / class that takes a `pipeline_seed`
+                   parameter (found by scanning the package, so private helpers may be renamed, split or inlined)
+                   forwards the caller's pipeline seed; keyword dictionaries handed to a scheduler count as call sites.
+seedTraces       : the sequence of effects of `set_random_seed` (lock acquire/release, state save/restore, seeding, body)
+                   observed by running it under recording wrappers: normal exit, exit by an error, seed None, no argument.
+                   (Evaluated, not read off the text: any rewriting of the context manager with the same effects gives
+                   the same table.)
 """
 from __future__ import annotations
 
 import ast
 from pathlib import Path
 
-from extract import REPO, lbool, llist, lpair, lstr
+from extract import REPO, lbool, llist, lpair, lstr, run_in_repo
 
 FALLBACK = (
     "def seededModels : List (String × Bool) := []\n"
     "def globalSeedCalls : List String := [\"extractor-failed\"]\n"
     "def modesPassSeed : List (String × Bool) := []\n"
-    "def seedContextShape : List String := []\n"
+    "def seedTraces : List (String × List String) := []\n"
     "def unseededGenerators : List String := [\"extractor-failed\"]"
 )
 
@@ -169,126 +173,166 @@ def global_seed_calls():
     return rows
 
 
-def _passes_seed(fd, callee_names: set[str], attr: str = "pipeline_seed") -> bool | None:
-    """every call to one of `callee_names` inside fd passes pipeline_seed=self.pipeline_seed (or the
-    function's own `pipeline_seed` parameter / an attribute named pipeline_seed)."""
-    found = False
-    for n in ast.walk(fd):
-        if isinstance(n, ast.Call) and _attr_chain(n.func)[-1:] and _attr_chain(n.func)[-1] in callee_names:
-            found = True
-            ok = False
-            for k in n.keywords:
-                if k.arg == "pipeline_seed":
-                    v = k.value
-                    ch = _attr_chain(v)
-                    if ch[-1:] == [attr] or (isinstance(v, ast.Name) and v.id == attr):
-                        ok = True
-            # dict-of-kwargs form used by the dask path: {"pipeline_seed": pipeline_seed, ...}
-            if not ok:
-                return False
-    return True if found else None
+PUBLIC_MODES = {"Exposure", "Observation", "Calibration"}  # where a pipeline seed originates (public API names)
 
 
-def _dict_passes_seed(rel: str, func: str) -> bool:
-    """the dask path hands keyword arguments over as a dict literal: {"pipeline_seed": pipeline_seed, ...}"""
-    try:
-        mod = ast.parse((REPO / rel).read_text())
-    except Exception:
-        return False
-    fd = next((n for n in ast.walk(mod) if isinstance(n, ast.FunctionDef) and n.name == func), None)
-    if fd is None:
-        return False
-    for n in ast.walk(fd):
-        if isinstance(n, ast.Dict):
-            for k, v in zip(n.keys, n.values):
-                if isinstance(k, ast.Constant) and k.value == "pipeline_seed":
-                    return isinstance(v, ast.Name) and v.id == "pipeline_seed"
+def _mentions_seed(v) -> bool:
+    for n in ast.walk(v):
+        if isinstance(n, ast.Name) and n.id in ("pipeline_seed", "_pipeline_seed"):
+            return True
+        if isinstance(n, ast.Attribute) and n.attr in ("pipeline_seed", "_pipeline_seed"):
+            return True
     return False
 
 
 def modes_pass_seed():
-    rows = []
-
-    def add(label, rel, cls, func, callees):
+    """-> [(file, every call site in it forwards the pipeline seed)] for the files that have such call sites"""
+    mods = {}
+    for f in sorted((REPO / "pyxel").rglob("*.py")):
         try:
-            mod = ast.parse((REPO / rel).read_text())
+            mods[str(f.relative_to(REPO))] = ast.parse(f.read_text())
         except Exception:
-            rows.append((label, False))
-            return
-        scope = mod
-        if cls:
-            scope = next((n for n in ast.walk(mod) if isinstance(n, ast.ClassDef) and n.name == cls), None)
-        fd = None
-        if scope is not None:
-            fd = next((n for n in ast.walk(scope) if isinstance(n, ast.FunctionDef) and n.name == func), None)
-        r = _passes_seed(fd, callees) if fd is not None else None
-        rows.append((label, bool(r)))
+            continue
+    # P: callables with a `pipeline_seed` parameter -> position of that parameter among the positional ones
+    takers: dict[str, list[int | None]] = {}
+    func_takers: set[str] = set()
+    for mod in mods.values():
+        for n in ast.walk(mod):
+            if isinstance(n, ast.ClassDef) and n.name not in PUBLIC_MODES:
+                for m in n.body:
+                    if isinstance(m, ast.FunctionDef) and m.name == "__init__":
+                        pos = [a.arg for a in m.args.posonlyargs + m.args.args][1:]
+                        allp = pos + [a.arg for a in m.args.kwonlyargs]
+                        if "pipeline_seed" in allp:
+                            takers.setdefault(n.name, []).append(pos.index("pipeline_seed") if "pipeline_seed" in pos else None)
+        for n in mod.body:
+            if isinstance(n, ast.FunctionDef):
+                pos = [a.arg for a in n.args.posonlyargs + n.args.args]
+                allp = pos + [a.arg for a in n.args.kwonlyargs]
+                if "pipeline_seed" in allp:
+                    takers.setdefault(n.name, []).append(pos.index("pipeline_seed") if "pipeline_seed" in pos else None)
+                    func_takers.add(n.name)
+    rows = {}
+    for rel, mod in mods.items():
+        verdicts = []
+        called_funcs = set()
+        for n in ast.walk(mod):
+            if isinstance(n, ast.Call) and isinstance(n.func, ast.Name) and n.func.id in takers:
+                called_funcs.add(id(n.func))
+                ok = False
+                for k in n.keywords:
+                    if k.arg == "pipeline_seed" and _mentions_seed(k.value):
+                        ok = True
+                for idx in takers[n.func.id]:
+                    if idx is not None and len(n.args) > idx and not any(isinstance(a, ast.Starred) for a in n.args[: idx + 1]) and _mentions_seed(n.args[idx]):
+                        ok = True
+                verdicts.append(ok)
+        # a taker handed over as an object (to a scheduler) needs a keyword dictionary that forwards the seed
+        for fd in [x for x in ast.walk(mod) if isinstance(x, (ast.FunctionDef, ast.AsyncFunctionDef))]:
+            refs = []
+            for c in ast.walk(fd):
+                if isinstance(c, ast.Call) and not (isinstance(c.func, ast.Name) and c.func.id in ("isinstance", "issubclass", "cast")):
+                    for a in list(c.args) + [k.value for k in c.keywords]:
+                        if isinstance(a, ast.Name) and a.id in func_takers:
+                            refs.append(a)
+            if not refs:
+                continue
+            ok = False
+            for d in ast.walk(fd):
+                if isinstance(d, ast.Dict):
+                    for k, v in zip(d.keys, d.values):
+                        if isinstance(k, ast.Constant) and k.value == "pipeline_seed" and _mentions_seed(v):
+                            ok = True
+                if isinstance(d, ast.Call) and isinstance(d.func, ast.Name) and d.func.id == "dict":
+                    for k in d.keywords:
+                        if k.arg == "pipeline_seed" and _mentions_seed(k.value):
+                            ok = True
+            verdicts.append(ok)
+        # a keyword dictionary naming the seed must forward it, wherever it is
+        for d in ast.walk(mod):
+            if isinstance(d, ast.Dict):
+                for k, v in zip(d.keys, d.values):
+                    if isinstance(k, ast.Constant) and k.value == "pipeline_seed":
+                        verdicts.append(_mentions_seed(v))
+        if verdicts:
+            rows[rel] = all(verdicts)
+    return sorted(rows.items())
 
-    add("exposure", "pyxel/exposure/exposure.py", "Exposure", "run_exposure", {"run_pipeline"})
-    add("observation-sequential", "pyxel/observation/observation.py", "Observation", "_run_single_pipeline", {"run_pipeline"})
-    add("observation-parallel", "pyxel/observation/observation.py", "Observation", "run_pipelines", {"run_pipelines_with_dask"})
-    for fn in ("_run_pipelines_array_to_datatree", "_run_pipelines_tuple_to_array"):
-        add(f"observation-dask:{fn}", "pyxel/observation/observation_dask.py", None, fn,
-            {"run_pipeline", "_run_pipelines_array_to_datatree"})
-    rows.append(("observation-dask:kwargs", _dict_passes_seed("pyxel/observation/observation_dask.py", "run_pipelines_with_dask")))
-    add("calibration", "pyxel/calibration/calibration.py", "Calibration", "run_calibration", {"ModelFittingDataTree"})
-    add("fitting:fitness", "pyxel/calibration/fitting_datatree.py", "ModelFittingDataTree", "fitness", {"run_pipeline"})
-    add("fitting:_apply_parameters", "pyxel/calibration/fitting_datatree.py", "ModelFittingDataTree", "_apply_parameters", {"run_pipeline"})
-    return rows
+
+SEED_TRACE_PROBE = r"""
+import json
+import numpy as np
+import pyxel.util.randomize as R
+
+trace = []
+real_get, real_set, real_seed = np.random.get_state, np.random.set_state, np.random.seed
 
 
-def seed_context_shape():
+def rec(name, f):
+    def w(*a, **k):
+        trace.append(name)
+        return f(*a, **k)
+    return w
+
+
+class LockProxy:
+    def __init__(self, real):
+        self._real = real
+
+    def acquire(self, *a, **k):
+        trace.append("acquire")
+        return self._real.acquire(*a, **k)
+
+    def release(self):
+        trace.append("release")
+        return self._real.release()
+
+    def __enter__(self):
+        trace.append("acquire")
+        return self._real.__enter__()
+
+    def __exit__(self, *a):
+        trace.append("release")
+        return self._real.__exit__(*a)
+
+
+for k, v in list(vars(R).items()):
+    if hasattr(v, "acquire") and hasattr(v, "release") and not isinstance(v, type):
+        setattr(R, k, LockProxy(v))
+np.random.get_state, np.random.set_state, np.random.seed = rec("save", real_get), rec("restore", real_set), rec("seed", real_seed)
+out = []
+try:
+    trace.clear()
+    with R.set_random_seed(5):
+        trace.append("body")
+    out.append(["normal", list(trace)])
+    trace.clear()
     try:
-        mod = ast.parse((REPO / "pyxel/util/randomize.py").read_text())
-    except Exception:
-        return []
-    fd = next((n for n in ast.walk(mod) if isinstance(n, ast.FunctionDef) and n.name == "set_random_seed"), None)
-    if fd is None:
-        return []
-    shape: list[str] = []
+        with R.set_random_seed(5):
+            trace.append("body")
+            raise KeyError("x")
+    except KeyError:
+        trace.append("propagated")
+    out.append(["error", list(trace)])
+    trace.clear()
+    with R.set_random_seed(None):
+        trace.append("body")
+    out.append(["none", list(trace)])
+    trace.clear()
+    with R.set_random_seed():
+        trace.append("body")
+    out.append(["default", list(trace)])
+finally:
+    np.random.get_state, np.random.set_state, np.random.seed = real_get, real_set, real_seed
+print(json.dumps(out))
+"""
 
-    def walk(stmts):
-        for st in stmts:
-            if isinstance(st, ast.If):
-                # `if seed is not None:` body, then else
-                walk(st.body)
-                if st.orelse:
-                    shape.append("else")
-                    walk(st.orelse)
-            elif isinstance(st, ast.With):
-                names = [_attr_chain(it.context_expr)[-1:] for it in st.items]
-                if any(n and "LOCK" in n[0].upper() for n in names):
-                    shape.append("lock")
-                walk(st.body)
-            elif isinstance(st, ast.Try):
-                shape.append("try")
-                walk(st.body)
-                if st.finalbody:
-                    shape.append("finally")
-                    walk(st.finalbody)
-                if st.handlers:
-                    shape.append("except")
-            elif isinstance(st, (ast.Assign, ast.AnnAssign)) and isinstance(st.value, ast.Call) and _attr_chain(st.value.func)[-1:] == ["get_state"]:
-                shape.append("save")
-            elif isinstance(st, ast.Expr) and isinstance(st.value, ast.Call):
-                last = _attr_chain(st.value.func)[-1:]
-                if last == ["seed"]:
-                    shape.append("seed")
-                elif last == ["set_state"]:
-                    shape.append("restore")
-                else:
-                    shape.append("call:" + (last[0] if last else "?"))
-            elif isinstance(st, ast.Expr) and isinstance(st.value, (ast.Yield,)):
-                shape.append("yield")
-            elif isinstance(st, ast.Expr) and isinstance(st.value, ast.Constant):
-                pass  # docstring
-            elif isinstance(st, ast.Pass):
-                pass
-            else:
-                shape.append("other:" + type(st).__name__)
 
-    walk(fd.body)
-    return shape
+def seed_traces():
+    res = run_in_repo(SEED_TRACE_PROBE)
+    if not isinstance(res, list):
+        return []
+    return [(str(a), [str(x) for x in b]) for a, b in res]
 
 
 def unseeded_generators(pkg: Pkg):
@@ -316,6 +360,6 @@ def gen() -> str:
         f"def seededModels : List (String × Bool) := {llist(sm, pb)}\n"
         f"def globalSeedCalls : List String := {llist(global_seed_calls())}\n"
         f"def modesPassSeed : List (String × Bool) := {llist(modes_pass_seed(), pb)}\n"
-        f"def seedContextShape : List String := {llist(seed_context_shape())}\n"
+        f"def seedTraces : List (String × List String) := {llist(seed_traces(), lpair(lstr, llist))}\n"
         f"def unseededGenerators : List String := {llist(unseeded_generators(pkg))}"
     )
